@@ -212,6 +212,12 @@ func (m *TransferShare) handlerTransferShares(
 		return nil, nil, fmt.Errorf("insufficient shares(%s < %s)", fromDel.GetShares().TruncateInt().String(), shares.TruncateInt().String())
 	}
 
+	// a transfer to oneself must not change anything: below, the recipient's delegation is read before the
+	// sender's is written, so from == to would write back the stale copy plus the transferred shares
+	if from == to {
+		return validator.TokensFromShares(shares).TruncateInt().BigInt(), big.NewInt(0), nil
+	}
+
 	// withdraw reward
 	withdrawAddr, err := m.distrKeeper.GetDelegatorWithdrawAddr(ctx, to.Bytes())
 	if err != nil {
